@@ -3,15 +3,20 @@
 Lean: Props/C18.lean over Model/Lifecycle.lean (temp-file lifecycle automaton of run_refurb: exact
 characterisation of the leaking fault sequences, ordering facts, write alphabet; shape / order / values
 of the --timing-stats JSON for inputs of any size).  Generated/LifecycleShape.lean (harness/extract_c18.py)
-tells the model whether `mypy_timing_stats.unlink()` sits in a `finally` clause; the theorems cover both shapes.
+tells the model whether `mypy_timing_stats.unlink()` sits in a `finally` clause and whether the lines of mypy's timing
+file are cut with `line.split()` or `line.rsplit(maxsplit=1)` (probed by execution); the theorems cover both shapes of each.
 
 Correspondence
   * `pychartables`: the model's whitespace / line-boundary predicates vs str.isspace / str.splitlines on
     EVERY code point (exhaustive).
+  * `pyrsplit`: the model's `str.rsplit(maxsplit=1)` and `str.split()` vs CPython on generated strings over an
+    alphabet with every kind of whitespace (as code points).
   * `timingjson`: model vs refurb.main.output_timing_stats, in-process, on generated timing files
     (duplicate modules, ties, zero, negative, underscores, non-ASCII digits, 4300/4301-digit numbers,
-    empty file, blank lines, 1 or 3 fields, every str.splitlines separator, odd whitespace, module
-    names that need JSON escaping); compared as ordered key/value pairs, not as text.
+    empty file, blank lines, 1-4 fields, every str.splitlines separator, odd whitespace, module
+    names that need JSON escaping, module names with spaces / tabs / non-ASCII whitespace); compared as ordered
+    key/value pairs, not as text.  The shape of the line parse the working tree does NOT have is compared with a
+    reference loop in Python, so that the theorems about it stay theorems about the code it describes.
   * `lifecycle`: model trace vs an instrumented run of refurb.main.main in a fresh process (mkstemp,
     process_options, build, load_checks, RefurbVisitor.accept, output_timing_stats, Path.read_text /
     write_text / unlink wrapped; faults either real or injected at those seams).
@@ -19,7 +24,9 @@ Correspondence
 Oracle (CLI, fresh process, cwd / checked tree / private TMPDIR snapshotted before and after): nothing may
 appear, change or disappear except `.mypy_cache/**` in the working directory and the stats FILE; nothing
 may remain in TMPDIR; when the run reaches the checking stage FILE must be ONE JSON object with exactly the
-three documented keys, int values, and an entry for every checked module.
+three documented keys, int values, and an entry for every checked module (also for a file whose NAME contains a space).
+In-process: for a timing file as mypy writes it (`f"{id} {time_spent_us}"` per module, ids with inner whitespace included)
+output_timing_stats must not raise and the mypy section must have an integer entry for exactly those ids.
 """
 
 from __future__ import annotations
@@ -114,7 +121,10 @@ TREE: dict[str, str] = {
     "src/pkg/sub/__init__.py": "",
     "src/pkg/sub/deep.py": "u = 1\n",
     "src/data.txt": "not python\n",
+    "cfg/disable_all.toml": "[tool.refurb]\ndisable_all = true\n",
     "src/readonly.py": "r = 1\n",
+    # a module name can contain spaces: mypy's timing file then has the line `src.with space 123`
+    "src/with space.py": "w = int(0)\n",
     # deep enough that refurb's visitor exceeds the recursion limit (suppressed, issue #302) while mypy's build succeeds
     "src/deepexpr.py": "x = " + " + ".join(["1"] * 600) + "\n",
 }
@@ -134,6 +144,12 @@ SCENARIOS: dict[str, tuple[list[str], list[str], str | None]] = {
     "directory-argument": (["src/pkg"], ["src/pkg/__init__.py", "src/pkg/mod.py", "src/pkg/sub/__init__.py", "src/pkg/sub/deep.py"], None),
     "debug": (["src/clean.py", "--debug"], ["src/clean.py"], None),
     "readonly-file": (["src/readonly.py"], ["src/readonly.py"], None),
+    # no check function is loaded: the files are still checked (by nothing), FILE must still have an entry per module
+    "disable-all": (["src/clean.py", "src/diag.py", "--disable-all"], ["src/clean.py", "src/diag.py"], None),
+    "enabled-but-ignored": (["src/diag.py", "--disable-all", "--enable", "FURB123", "--ignore", "FURB123"], ["src/diag.py"], None),
+    "disable-all-in-config-file": (["src/clean.py", "src/diag.py", "--config-file", "cfg/disable_all.toml"], ["src/clean.py", "src/diag.py"], None),
+    "file-name-with-space": (["src/with space.py"], ["src/with space.py"], None),
+    "file-name-with-space-among-others": (["src/clean.py", "src/with space.py", "src/diag.py"], ["src/clean.py", "src/with space.py", "src/diag.py"], None),
     "visitor-recursion-limit": (["src/clean.py", "src/deepexpr.py"], ["src/clean.py", "src/deepexpr.py"], None),
     "plugin-check-crashes": (["src/clean.py", "src/diag.py", "--load", "plug_crash"], [], "check-crash"),
     "plugin-bad-signature": (["src/clean.py", "--load", "plug_bad"], [], "load-TypeError"),
@@ -144,7 +160,6 @@ THOROUGH_SCENARIOS: dict[str, tuple[list[str], list[str], str | None]] = {
     "whole-tree-with-broken": (["src"], [], "CompileError"),
     "sort-error": (["src/diag.py", "src/pkg/mod.py", "--sort", "error"], ["src/diag.py", "src/pkg/mod.py"], None),
     "python-version": (["src/clean.py", "--python-version", "3.9"], ["src/clean.py"], None),
-    "disable-all": (["src/diag.py", "--disable-all"], ["src/diag.py"], None),
     "explain": (["--explain", "FURB123"], [], "no-run"),
     "help": (["--help"], [], "no-run"),
     "bad-refurb-flag": (["src/clean.py", "--no-such-flag"], [], "no-run"),
@@ -247,7 +262,9 @@ def cli_case(root: Path, scenario: str, spec: tuple[list[str], list[str], str | 
         cwd = root / "elsewhere"
         cwd.mkdir()
         (cwd / "existing.json").write_text(EXISTING_JUNK)
+        (cwd / "statsdir").mkdir()   # the 'directory' stats mode names a directory of the WORKING directory
         os.utime(cwd / "existing.json", ns=(10**18, 10**18))
+        os.utime(cwd / "statsdir", ns=(10**18, 10**18))
         argv0 = [("../work/" + a if a.startswith("src") else a) for a in argv0]
     sargs, stats_rel = stats_args(mode)
     argv = [*argv0[: argv0.index("--")], *sargs, *argv0[argv0.index("--") :]] if "--" in argv0 else [*argv0, *sargs]
@@ -312,11 +329,18 @@ SEPS = [" ", " ", " ", "  ", "\t", " \t ", "\x1f", "\xa0", "\u2003", "\u3000"]
 NUMBERS = ["0", "1", "999", "1000", "1001", "1999", "2000", "123456", "987654321", "-1", "-999", "-1000", "-1001", "+5000", "1_000", "12_345_678",
            "00012000", "-0", "٣٠٠٠", "１２３４５", "1٣00", "9" * 30, "1" * 4300, "5000", "5000", "5999", "7000"]
 BAD_NUMBERS = ["", "1.5", "1e3", "0x10", "_1", "1_", "1__0", "--1", "+-1", "+", "abc", "1" * 4301, "½", "1,000", "²"]
+# module names as a file name can produce them: inner whitespace of every kind, leading whitespace
+WS_MODULES = ["a b", "with space", "a  b", "a b c", "pkg.with space", "tab\tname", "nb\xa0sp", "em\u2003sp", "id\u3000sp", "us\x1fsep", " lead", "\tlead.x y",
+              "ünï cödé", "日 本", "emoji 😀", "q\" uote", "back \\ slash", "1 2", "a 1", "- 1", "x" * 20 + " " + "y" * 20]
 LINE_ENDS = ["\n", "\n", "\n", "\n", "\r\n", "\r", "\x0b", "\x0c", "\x1c", "\x1d", "\x1e", "\x85", "\u2028", "\u2029"]
 
 
 def gen_timing_case(rng) -> dict[str, Any]:
-    kind = rng.choice(["good", "good", "good", "dups", "ties", "bad", "empty", "exotic"])
+    kind = rng.choice(["good", "good", "good", "dups", "ties", "bad", "empty", "exotic", "mypy", "mypy", "fields", "fields"])
+    if kind == "mypy":
+        return gen_mypy_case(rng)
+    if kind == "fields":
+        return gen_fields_case(rng)
     lines: list[str] = []
     n = 0 if kind == "empty" else rng.randint(1, 9)
     mods = rng.sample(MODULES, k=min(len(MODULES), rng.randint(1, 6)))
@@ -353,6 +377,56 @@ def gen_timing_case(rng) -> dict[str, Any]:
     return {"kind": kind, "content": content, "total": total, "refurb": refurb}
 
 
+def gen_mypy_case(rng) -> dict[str, Any]:
+    """a timing file exactly as mypy.build.dump_timing_stats writes it: `f"{id} {time_spent_us}\\n"` for the sorted ids of
+    the build graph (distinct), some of which contain whitespace"""
+    k = rng.randint(1, 7)
+    pool = WS_MODULES + rng.sample(MODULES, 6)
+    ids = sorted(set(rng.sample(pool, k) + [rng.choice(WS_MODULES)]))
+    graph = [[m, rng.choice([0, 1, 999, 1000, 1999, 2000, 5000, 123456, 987654321, rng.randrange(10**7)])] for m in ids]
+    content = "".join(f"{m} {n}\n" for m, n in graph)
+    total = rng.choice([0.0, 1.203, 2.0, rng.uniform(0, 20)])
+    refurb = [[m, rng.choice([0, 1, 2, 17])] for m in rng.sample(ids, rng.randint(0, len(ids)))]
+    return {"kind": "mypy", "content": content, "total": total, "refurb": refurb, "graph": graph}
+
+
+def gen_fields_case(rng) -> dict[str, Any]:
+    """lines with 1, 2, 3 or 4 whitespace-separated fields and odd whitespace before, between and after them"""
+    lines = []
+    counts = []
+    for _ in range(rng.randint(1, 4)):
+        nf = rng.choice([1, 2, 2, 3, 3, 4])
+        counts.append(nf)
+        words = [rng.choice(["a", "b", "pkg.mod", "ünï", "日本", "7", "-1", "x.y", "q\"uote"]) for _ in range(nf - 1)]
+        words.append(rng.choice(NUMBERS[:22] + ["5000", "abc", "1.5", "b"]) if nf > 1 or rng.random() < 0.5 else rng.choice(["a", "pkg"]))
+        ws = lambda lo: "".join(rng.choice(SEPS) for _ in range(rng.randint(lo, 2)))  # noqa: E731
+        lines.append(ws(0) + "".join(w + (ws(1) if i < nf - 1 else "") for i, w in enumerate(words)) + ws(0))
+    if rng.random() < 0.15:
+        lines.insert(rng.randrange(len(lines) + 1), rng.choice(["", " ", "\t \xa0"]))
+        counts.append(0)
+    content = "".join(l + rng.choice(["\n", "\n", "\r\n", "\x0b", "\x85"]) for l in lines)
+    return {"kind": "fields", "content": content, "total": rng.choice([0.0, 1.5]), "refurb": [], "fields": sorted(set(counts))}
+
+
+def ref_timing(case: dict[str, Any], rsplit: bool) -> dict[str, Any]:
+    """the loop of output_timing_stats, written out for the given shape of the line parse (reference for the shape the tree
+    does not have; the shape it has is compared with the real function)"""
+    mypy_stats: dict[str, int] = {}
+    try:
+        for line in case["content"].splitlines():
+            module, micro_seconds = line.rsplit(maxsplit=1) if rsplit else line.split()
+            mypy_stats[module] = int(micro_seconds) // 1_000
+    except ValueError:
+        return {"err": "ValueError"}
+    return {"mypy": [[k, str(v)] for k, v in sorted(mypy_stats.items(), key=lambda kv: kv[1], reverse=True)]}
+
+
+def gen_rsplit_string(rng) -> str:
+    alphabet = ["a", "b", "1", "0", "-", "_", "é", "日", "😀", ".", " ", " ", " ", "\t", "\n", "\r", "\x0b", "\x0c", "\x1c", "\x1d", "\x1e", "\x1f", "\x85", "\xa0",
+                "\u1680", "\u2000", "\u2003", "\u200a", "\u2028", "\u2029", "\u202f", "\u205f", "\u3000", "\u200b", "\ufeff", "\x00", "\x7f"]
+    return "".join(rng.choice(alphabet) for _ in range(rng.randint(0, 12)))
+
+
 def impl_timing(case: dict[str, Any], d: Path) -> dict[str, Any]:
     from refurb.main import output_timing_stats
     from refurb.settings import Settings
@@ -369,6 +443,13 @@ def impl_timing(case: dict[str, Any], d: Path) -> dict[str, Any]:
     except Exception as e:  # ValueError is the modelled failure; anything else shows up as a disagreement
         return {"err": type(e).__name__}
     return {"text": out.read_text()}
+
+
+def impl_mypy_section(text: str) -> Any:
+    try:
+        return [[k, str(v)] for k, v in json.loads(text, object_pairs_hook=list)[1][1]]
+    except (ValueError, IndexError, TypeError):
+        return "malformed"
 
 
 def ordered(text: str) -> Any:
@@ -514,7 +595,7 @@ print(json.dumps({"events": ev, "rc": rc, "temp_created": bool(temp), "temp_exis
                   "tmpdir": sorted(os.listdir(os.environ["TMPDIR"])), "stdout": out.getvalue()[-300:]}))
 '''
 
-LC_FILES = {"plug_crash.py": PLUG_CRASH, "plug_bad.py": PLUG_BAD, "f0.py": "a = int(0)\n", "f1.py": "b = 1\n", "f2.py": "c = list()\n", "f3.py": "d = 2\n", "broken.py": "def f(:\n"}
+LC_FILES = {"sp ace.py": "e = int(0)\n", "plug_crash.py": PLUG_CRASH, "plug_bad.py": PLUG_BAD, "f0.py": "a = int(0)\n", "f1.py": "b = 1\n", "f2.py": "c = list()\n", "f3.py": "d = 2\n", "broken.py": "def f(:\n"}
 
 
 def lifecycle_specs(quick: bool, rng) -> list[dict[str, Any]]:
@@ -539,6 +620,11 @@ def lifecycle_specs(quick: bool, rng) -> list[dict[str, Any]]:
         add("plugin-bad-signature", timing, ["f0.py"], ["--load", "plug_bad"], sc={**ok, "load": "TypeError", "visits": ["ok"]})
         add("ok-1", timing, ["f0.py"], sc={**ok, "visits": ["ok"]})
         add("ok-3", timing, ["f0.py", "f1.py", "f2.py"], sc={**ok, "visits": ["ok"] * 3})
+        # no check function loaded: the loop still visits every file and the statistics are still written
+        add("no-checks", timing, ["f0.py", "f1.py"], ["--disable-all"], sc={**ok, "visits": ["ok"] * 2})
+        add("no-checks-enabled-but-ignored", timing, ["f0.py", "f1.py"], ["--disable-all", "--enable", "FURB123", "--ignore", "FURB123"], sc={**ok, "visits": ["ok"] * 2})
+        # mypy's timing file has the line `sp ace <n>`: what output_timing_stats does with it is the model's answer (otsOf)
+        add("ok-space-in-file-name", timing, ["f0.py", "sp ace.py"], sc={**ok, "visits": ["ok"] * 2, "ots": "ask-model" if timing else "ok"})
         add("recursion-suppressed", timing, ["f0.py", "f1.py"], fault={"recursion": 0}, sc={**ok, "visits": ["ok", "ok"]})
         add("unwritable-stats", timing, ["f0.py"], stats="nodir/out.json", sc={**ok, "ots": "writeError" if timing else "ok", "visits": ["ok"]})
         add("malformed-timing-line", timing, ["f0.py"], fault={"ots": "ValueError"}, sc={**ok, "ots": "ValueError" if timing else "ok", "visits": ["ok"]})
@@ -599,12 +685,17 @@ def run(ctx) -> None:
     res = ctx.res
     rng = ctx.rng("c18")
     res.rule = (
-        "char tables: every code point (exhaustive, 1 case). timingjson: generated timing files (8 kinds: good/dups/ties/bad/empty/exotic; "
-        "17 module names incl. ones needing JSON escapes; 27 well-formed + 15 ill-formed numbers; 14 line endings; 10 separators) with a "
-        "total and 0-6 refurb assignments; non-trivial = file has >= 1 line; distinct = distinct (content, total ms, assignments). "
+        "char tables: every code point (exhaustive, 1 case). rsplit: strings of 0-12 characters over 37 characters (21 kinds of whitespace, "
+        "zero-width look-alikes that are not whitespace) vs str.rsplit(maxsplit=1) and str.split(); non-trivial = two or more fields. "
+        "timingjson: generated timing files (10 kinds: good/dups/ties/bad/empty/exotic, mypy = `id count` lines for distinct ids of which at "
+        "least one contains whitespace (21 such names: spaces, runs of spaces, tab, NBSP, EM SPACE, IDEOGRAPHIC SPACE, U+001F, leading blank, "
+        "non-ASCII), fields = lines of 1/2/3/4 fields with odd whitespace around and between; "
+        "17 plain module names incl. ones needing JSON escapes; 27 well-formed + 15 ill-formed numbers; 14 line endings; 10 separators) with a "
+        "total and 0-6 refurb assignments; non-trivial = file has >= 1 line; distinct = distinct (content, total ms, assignments); a third of "
+        "the files also go through the line parse the tree does not have (model vs reference loop). "
         "lifecycle: one fresh instrumented process per fault sequence (first failure at each of process_options / build / load_checks / "
         "visit i / read / parse / write, x --timing-stats on/off; thorough adds later-fault and random combinations). "
-        "CLI oracle: scenario x stats mode {none,new,existing,unwritable}, each in its own scratch tree with a private TMPDIR; "
+        "CLI oracle: scenario (incl. a checked file whose name contains a space, and runs in which no check function is loaded) x stats mode {none,new,existing,unwritable,directory}, each in its own scratch tree with a private TMPDIR; "
         "non-trivial = the run got past argument parsing"
     )
     drv_ok = ctx.driver.available()
@@ -624,6 +715,22 @@ def run(ctx) -> None:
         if tab.get("linebreak") != lb:
             res.disagree("isLineBreak vs str.splitlines", "all code points", tab.get("linebreak"), lb)
 
+    # ---- 1b. str.rsplit(maxsplit=1) / str.split() vs the model, as code points
+    if drv_ok:
+        rrng = ctx.rng("c18-rsplit")
+        strs = ["", " ", "a", " a ", "a b", "  a  b   12 ", "a b 1000", "\ta b\t\t1 ", "a\x1f9", "a\u200bb 1", "x\x00 y"]
+        strs += [gen_rsplit_string(rrng) for _ in range(1500 if ctx.quick else 30000)]
+        ans = ctx.driver.batch([{"verb": "pyrsplit", "cps": [ord(ch) for ch in t]} for t in strs])
+        for t, a in zip(strs, ans):
+            want_r = [[ord(ch) for ch in f] for f in t.rsplit(maxsplit=1)]
+            want_s = [[ord(ch) for ch in f] for f in t.split()]
+            res.case(("rsplit", t), nontrivial=len(want_s) >= 2)
+            res.bump(f"rsplit_strings_{min(len(want_s), 4)}{'+' if len(want_s) >= 4 else ''}_fields")
+            if a.get("rsplit1") != want_r:
+                res.disagree("pyRsplit1 vs str.rsplit(maxsplit=1)", {"string": t}, a.get("rsplit1"), want_r)
+            if a.get("split") != want_s:
+                res.disagree("pySplit vs str.split()", {"string": t}, a.get("split"), want_s)
+
     # ---- 2. output_timing_stats vs timingJson
     n_cases = 600 if ctx.quick else 20000
     cases = [gen_timing_case(rng) for _ in range(n_cases)]
@@ -634,14 +741,39 @@ def run(ctx) -> None:
         {"kind": "fixed", "content": "x " + "9" * 4300 + "\ny " + "0" * 4299 + "7\n", "total": 1.0, "refurb": [["x", 10**15]]},
         {"kind": "fixed", "content": "x " + "0" * 4301 + "\n", "total": 1.0, "refurb": []},
         {"kind": "fixed", "content": "t1 5000\nt2 5999\nt3 5001\nz 0\nt4 5500\n", "total": 1.0, "refurb": [["p", 2], ["q", 2], ["r", 3], ["p", 2]]},
+        {"kind": "mypy", "content": "a b 1000\n", "total": 0.0, "refurb": [["a b", 0]], "graph": [["a b", 1000]]},
+        {"kind": "mypy", "content": "builtins 109500\nsrc.with space 2999\n", "total": 1.0, "refurb": [["src.with space", 3]], "graph": [["builtins", 109500], ["src.with space", 2999]]},
+        {"kind": "fields", "content": "  a  b   12000 \na\n", "total": 0.0, "refurb": [], "fields": [1, 3]},
+        {"kind": "fields", "content": "a b c 4000\n", "total": 0.0, "refurb": [], "fields": [4]},
+        {"kind": "fields", "content": " 5 \n", "total": 0.0, "refurb": [], "fields": [1]},
     ]
     cases = fixed + cases
     with core.scratch("rv-c18t-") as d:
         impl = [impl_timing(c, d) for c in cases]
     model = ctx.driver.batch([{"verb": "timingjson", "content": c["content"], "total": int(c["total"] * 1000), "refurb": c["refurb"]} for c in cases]) if drv_ok else []
+    # the shape of the line parse the tree does not have: model vs the reference loop (mypy section only)
+    if model:
+        now = bool(model[0].get("rsplit"))
+        res.bump("timing_shape_of_tree_" + ("rsplit_maxsplit_1" if now else "split"))
+        alt_cases = cases[: len(fixed)] + cases[len(fixed) :: 3]
+        alt = ctx.driver.batch([{"verb": "timingjson", "rsplit": not now, "content": c["content"], "total": 0, "refurb": []} for c in alt_cases])
+        for c, m in zip(alt_cases, alt):
+            r = ref_timing(c, not now)
+            res.bump("timing_other_shape_compared")
+            if ("err" in m) != ("err" in r) or ("err" not in m and m.get("mypy") != r["mypy"]):
+                res.disagree("timingjson, shape the tree does not have, vs reference loop", {"rsplit": not now, "content": c["content"]},
+                             m.get("mypy", m.get("err")), r.get("mypy", r.get("err")))
+            # and the reference loop of the shape the tree HAS must agree with the real function (keeps the reference honest)
+        for c, i in zip(cases, impl):
+            r = ref_timing(c, now)
+            got = "err" if "err" in i else impl_mypy_section(i["text"])
+            if got != ("err" if "err" in r else r["mypy"]):
+                res.disagree("reference loop vs output_timing_stats", {"rsplit": now, "content": c["content"]}, r, i)
     for c, i, m in zip(cases, impl, model):
         res.case(("timing", c["content"], int(c["total"] * 1000), json.dumps(c["refurb"])), nontrivial=bool(c["content"]))
         res.bump("timing_" + c["kind"])
+        for nf in c.get("fields", []):
+            res.bump(f"timing_lines_with_{nf}_fields")
         res.bump("timing_ValueError" if "err" in i else "timing_written")
         if "err" in i or "err" in m:
             if i.get("err") != m.get("err"):
@@ -656,6 +788,34 @@ def run(ctx) -> None:
         if not same:
             res.disagree("timingjson", c, m["text"][:400], i["text"][:400])
     for c, i in zip(cases, impl):
+        # property-level oracle on a timing file AS MYPY WRITES IT (one `id count` line per module of the build graph, ids may
+        # contain whitespace): the statistics must be written and the mypy section must have an integer entry for exactly those ids
+        if c["kind"] == "mypy":
+            ids = [m for m, _ in c["graph"]]
+            res.bump("timing_mypy_files_checked")
+            how = ("write timing_file to a temp file T; refurb.main.output_timing_stats(Settings(timing_stats=Path('o.json')), total_seconds, Path(T), dict(refurb_ms)); "
+                   "end to end: a file named '<id>.py' (e.g. 'a b.py') checked with --timing-stats o.json")
+            if "err" in i:
+                res.violate(
+                    f"output_timing_stats raised {i['err']} on the timing file mypy writes for modules {ids[:4]!r}: no statistics file is written",
+                    {"kind": "stats-file-missing", "site": "output_timing_stats", "cause": "module-name-with-whitespace" if any(ch.isspace() for m in ids for ch in m) else "other"},
+                    {"timing_file": c["content"], "graph": c["graph"], "total_seconds": c["total"], "refurb_ms": c["refurb"], "observed": i["err"],
+                     "required": "the statistics file is written with an integer entry per module", "how": how},
+                )
+            else:
+                try:
+                    sec = json.loads(i["text"])[KEYS[1]]
+                except (ValueError, KeyError, TypeError):
+                    sec = None   # reported by check_stats_text below
+                if isinstance(sec, dict):
+                    wrong = [m for m, n in c["graph"] if type(sec.get(m)) is not int or sec[m] != n // 1000] + [k for k in sec if k not in ids]
+                    if wrong:
+                        res.violate(
+                            f"mypy section of the statistics file has no / a wrong entry for module {wrong[0]!r} (file names with whitespace)",
+                            {"kind": "stats-module-missing", "site": "output_timing_stats", "section": "mypy"},
+                            {"timing_file": c["content"], "graph": c["graph"], "written": i["text"][:600],
+                             "required": "exactly one entry `id: count // 1000` per line `id count`", "how": how},
+                        )
         # property-level oracle on what the implementation wrote
         if "text" in i:
             for pr in check_stats_text(i["text"], None):
@@ -683,6 +843,11 @@ def run(ctx) -> None:
     specs = lifecycle_specs(ctx.quick, ctx.rng("c18-lifecycle"))
     with ThreadPoolExecutor(12) as ex:
         observed = list(ex.map(lifecycle_run, specs))
+    if drv_ok:
+        asked = [s for s in specs if s["scenario"]["ots"] == "ask-model"]
+        answers = ctx.driver.batch([{"verb": "otsof", "readable": True, "writable": True, "content": "builtins 109500\nf0 1200\nsp ace 900\n"} for _ in asked])
+        for s, a in zip(asked, answers):
+            s["scenario"]["ots"] = a
     lmodel = ctx.driver.batch([{"verb": "lifecycle", **s["scenario"]} for s in specs]) if drv_ok else []
     for s, o, m in zip(specs, observed, lmodel):
         res.case(("lifecycle", s["name"], s["timing"]))
@@ -710,6 +875,18 @@ def run(ctx) -> None:
         # and an integer entry for every checked module
         files = [a for a in s["argv"] if a.endswith(".py") and a in LC_FILES and a != "broken.py"]
         nvis = sum(1 for e in o["events"] if e.startswith("visit ") and e.endswith(" ok"))
+        # no fault injected, options / build / loading fine, no check crashes, FILE writable: the statistics file must exist afterwards
+        # (whether or not the files were actually visited: a run that skips the loop, e.g. because no check is loaded, still owes FILE)
+        sc = s["scenario"]
+        fine = sc["popts"] == "ok" and sc["build"] == "ok" and sc["load"] == "ok" and "raises" not in sc["visits"]
+        if s["timing"] and not s["fault"] and s["stats"] == "out.json" and files and fine and "broken.py" not in s["argv"] and o.get("stats_text") is None:
+            res.violate(
+                f"`refurb {' '.join(s['argv'])}` checked the files but wrote no statistics file ({s['name']})",
+                {"kind": "stats-file-missing", "scenario": s["name"], "site": "run_refurb"},
+                {"cwd_files": LC_FILES, "argv": s["argv"], "events": o["events"], "expect_stats": True,
+                 "required": "FILE is written: one JSON object, three documented sections, an integer entry per checked module",
+                 "how": "write cwd_files into an empty directory, python -m refurb <argv>"},
+            )
         if s["timing"] and o.get("stats_text") is not None and "outputTimingStats ok" in o["events"] and files and nvis == len(files) and "broken.py" not in s["argv"]:
             res.bump("lifecycle_stats_files_checked")
             for pr in check_stats_text(o["stats_text"], [Path(f).stem for f in files]):
@@ -762,6 +939,8 @@ def run(ctx) -> None:
             sig = {"kind": dft["kind"], "after": dft["label"], "timing_stats": r["mode"] != "none"}
             if dft["kind"] == "stats-file-malformed":
                 sig["defect"] = dft["defect"].split(",")[0][:60]
+            if dft["kind"] == "stats-file-missing":
+                sig["scenario"] = r["scenario"]
             key = json.dumps(sig, sort_keys=True)
             if key in seen:
                 continue
@@ -793,12 +972,15 @@ def run(ctx) -> None:
     res.assumptions += [
         "reading of the property for runs that abort before the checking stage (mypy rejects the options / CompileError): FILE need not be written; if it is, it must be well-formed; an existing FILE must not be deleted",
         "module name of a checked file = a key equal to, or ending in '.' + , the file's stem (the package name for __init__.py)",
+        "module names of the in-process mypy-file oracle end in a non-whitespace character and contain no line boundary (a file `a .py` "
+        "has the module `a `: rsplit(maxsplit=1) files its mypy time under `a`, the refurb section keeps `a `; not demanded either way)",
         "what mypy itself writes below .mypy_cache is observed (confined), not modelled",
         "the timing file is valid UTF-8 (mypy writes module ids and integers); locale encoding of the run is UTF-8",
         "int(mypy_total_time_spent * 1000) is computed by the harness and passed to the model as an integer",
     ]
     res.not_proved += [
-        "that a line as mypy writes it (f'{id} {time_spent_us}') always parses: shown on examples and by the CLI runs, not as a theorem",
+        "mypy_file_never_raises covers module names ending in a non-whitespace character without line boundaries and counts of at most "
+        "4300 digits; that mypy never produces other ids is not proved",
         "no_source_write is a statement about the model's event alphabet; only the snapshots test it against the program",
         "the rendered text is shown to be printable ASCII of the documented form; that it parses back to the same pairs is checked by the correspondence (json.loads), not proved",
         "the file descriptor returned by mkstemp() is never closed by run_refurb (descriptor leak, outside the property)",
@@ -838,6 +1020,17 @@ def replay(path) -> int:
         spec = {"argv": rp["argv"], "fault": {}, "stats": next((rp["argv"][i + 1] for i, a in enumerate(rp["argv"]) if a == "--timing-stats"), None)}
         o = lifecycle_run(spec)
         print(json.dumps(o, indent=1))
-        return 1 if o.get("tmpdir") else 0
+        return 1 if o.get("tmpdir") or (rp.get("expect_stats") and o.get("stats_text") is None) else 0
+    if "timing_file" in rp:
+        case = {"content": rp["timing_file"], "total": rp.get("total_seconds", 0.0), "refurb": rp.get("refurb_ms", [])}
+        with core.scratch("rv-c18r-") as d:
+            i = impl_timing(case, d)
+        print(json.dumps({"timing_file": rp["timing_file"], "observed": i, "required": rp.get("required")}, indent=1))
+        if "err" in i:
+            return 1
+        if "graph" in rp:
+            sec = json.loads(i["text"]).get(KEYS[1], {})
+            return 1 if any(sec.get(m) != n // 1000 for m, n in rp["graph"]) else 0
+        return 1 if check_stats_text(i["text"], None) else 0
     print(json.dumps(rp, indent=1)[:4000])
     return 0
